@@ -347,6 +347,7 @@ func CheckC16(e *Env) int {
 		}
 	})
 	runFirstMention(e, rep, &mu)
+	runFileListInternal(e, rep, &mu)
 	return rep.Finish(t0)
 }
 
@@ -435,4 +436,59 @@ func runFirstMention(e *Env, rep *Report, mu *sync.Mutex) {
 		rep.Held("first-mention/" + p.ID)
 		mu.Unlock()
 	})
+}
+
+// runFileListInternal: a package that uses an internal package it may import, named once by
+// its directory and once by the list of its files (the go tool then calls the package
+// "command-line-arguments"): same verdict, same bytes.
+func runFileListInternal(e *Env, rep *Report, mu *sync.Mutex) {
+	id := "fli_internal"
+	p := &Program{ID: id, Module: ModulePath, Extra: map[string]string{}, Feat: map[string]string{"shape": "file-list-internal"}, RawDriver: true, Note: "determinism-file-list-internal"}
+	p.Pkgs = []*Pkg{{Name: "app", Dir: "app"}, {Name: "dep", Dir: "app/internal/dep"}}
+	p.Extra["1/dep.go"] = "package dep\n\ntype Opt int\n\ntype D struct{ N Opt }\n\nfunc New(o Opt) *D { return &D{N: o} }\n"
+	p.Extra["0/decl.go"] = "package app\n\nimport \"" + p.ImportPath(1) + "\"\n\nvar _ dep.Opt\n"
+	p.Extra["0/wire.go"] = "//go:build wireinject\n// +build wireinject\n\npackage app\n\nimport (\n\t\"github.com/google/wire\"\n\t\"" + p.ImportPath(1) + "\"\n)\n\nfunc Init() *dep.D {\n\tpanic(wire.Build(dep.New, wire.Value(dep.Opt(4))))\n}\n\nfunc InitWith(o dep.Opt) (*dep.D, error) {\n\tpanic(wire.Build(dep.New))\n}\n"
+	p.Extra["0/zz_driver.go"] = "//go:build !wireinject\n// +build !wireinject\n\npackage app\n\nfunc Scenarios() {}\n"
+	root := filepath.Join(e.Scratch, "c16fl", id)
+	os.MkdirAll(root, 0o755)
+	defer os.RemoveAll(root)
+	prepareModule(e, root, []*Program{p})
+	pkgDir := filepath.Join(root, id, "app")
+	out := filepath.Join(pkgDir, "wire_gen.go")
+	type run struct {
+		name string
+		res  *CmdResult
+		out  []byte
+	}
+	var runs []run
+	do := func(name, dir string, args ...string) {
+		os.Remove(out)
+		res := e.Wire(dir, nil, args...)
+		b, _ := os.ReadFile(out)
+		runs = append(runs, run{name, res, b})
+	}
+	do("directory", root, "gen", "./"+id+"/app")
+	do("file-list", pkgDir, "gen", "decl.go", "wire.go", "zz_driver.go")
+	do("file-list-reversed", pkgDir, "gen", "zz_driver.go", "wire.go", "decl.go")
+	do("dot", pkgDir, "gen", ".")
+	mu.Lock()
+	defer mu.Unlock()
+	ref := runs[0]
+	if ref.res.Exit != 0 || ref.out == nil {
+		rep.Incon = append(rep.Incon, "harness: "+id+" not generated by directory: "+tail(ref.res.Stderr, 300))
+		return
+	}
+	for _, r := range runs[1:] {
+		switch {
+		case r.res.TimedOut:
+			rep.Incon = append(rep.Incon, id+": watchdog")
+		case r.res.Exit != 0 || r.out == nil:
+			rep.Violate(id+"-"+r.name, Issue{Prop: "C16", Clause: "the package is generated when named by its directory but refused when named as " + r.name, Witness: tail(r.res.Stderr, 800), Sig: "C16:verdict-differs:" + r.name}, p.Files(false), nil)
+		case string(r.out) != string(ref.out):
+			rep.Violate(id+"-"+r.name, Issue{Prop: "C16", Clause: "wire_gen.go differs between runs directory and " + r.name, Witness: firstDiff(string(ref.out), string(r.out)), Sig: "C16:differs:" + r.name}, p.Files(false), nil)
+		default:
+			rep.Count("runs_compared", 1)
+			rep.Held("file-list-internal/" + r.name)
+		}
+	}
 }
